@@ -45,6 +45,13 @@ for _k, _off, _n, _b in ((2, 0, 1012, 0x40), (5, 0, 2024, 0x40), (9, 500, 1012, 
                          (70, 0, 1012, 0x40), (300, 0, 3036, 0x40)):
     _FILLY[_k * 1012 + _off:_k * 1012 + _off + _n] = bytes([_b]) * _n
 _FILLY = bytes(_FILLY)
+# ... and with the fill byte exactly where a file that is ALREADY blocked carries its trailers (offsets 1014k+1012, +1013):
+# data that merely looks blocked is data, and gets blocked like any other
+_LOOKS = bytearray(_CODED)
+for _k in range(0, 400):
+    _LOOKS[_k * 1014 + 1012:_k * 1014 + 1014] = b'\x40\x40'
+_LOOKS = bytes(_LOOKS)
+_SRC = {'coded': _CODED, 'filly': _FILLY, 'looks_blocked': _LOOKS}
 
 
 def prepare(ctx):
@@ -103,6 +110,18 @@ def cases(ctx):
         i += 1
         if ctx.mine(i):
             yield {'kind': 'history', 'writes': [total // 3, total - total // 3], 'fin': 'close', 'content': 'filly'}
+        i += 1
+    # data that looks like an already blocked file, at the lengths a sampling check would look at
+    for total in (1014, 2027, 2028, 2499, 2500, 2501, 3042, 4056, 5000, 101400, 250000):
+        for writes in ([total], [total // 2, total - total // 2]):
+            if ctx.mine(i):
+                yield {'kind': 'history', 'writes': writes, 'fin': 'finalise', 'content': 'looks_blocked'}
+            i += 1
+    # two blockers alive at the same time, their writes interleaved: each file must be what it is when written alone
+    for j, (wa, wb) in enumerate((([100, 1500, 7], [900, 200, 1012]), ([1012, 1012], [5, 5, 5, 3000]), ([0, 2024, 1], [1011, 1, 1]),
+                                 ([300] * 9, [1700, 1700]), ([4000], [10, 10]))):
+        if ctx.mine(i):
+            yield {'kind': 'two_blockers', 'a': wa, 'b': wb, 'abandon_first': bool(j % 2)}
         i += 1
     # seeded long histories
     n_hist = 400 if ctx.tier == 'quick' else 200000
@@ -218,10 +237,46 @@ def first_diff(a, b):
     return min(len(a), len(b)) if len(a) != len(b) else None
 
 
+def judge_two_blockers(ctx, case):
+    m = ctx.mciipm
+    fa, fb = KeepBytesIO(), KeepBytesIO()
+    da, db = _CODED[:sum(case['a'])], _FILLY[5000:5000 + sum(case['b'])]
+
+    def body():
+        if case['abandon_first']:
+            # a blocker that is written to and never finalised (its program failed) must leave nothing behind for the next
+            junk = m.Block1014(KeepBytesIO())
+            junk.write(_CODED[:700])
+        a, b = m.Block1014(fa), m.Block1014(fb)
+        pa = pb = 0
+        for k in range(max(len(case['a']), len(case['b']))):
+            if k < len(case['a']):
+                a.write(da[pa:pa + case['a'][k]])
+                pa += case['a'][k]
+            if k < len(case['b']):
+                b.write(db[pb:pb + case['b'][k]])
+                pb += case['b'][k]
+        a.finalise()
+        b.finalise()
+    kind, val = ctx.call(body, budget=sentinel.budget_bulk(len(da) + len(db) + 8000))
+    ctx.count('pairs of blockers written with interleaved writes')
+    ctx.case_done(['two', case['a'], case['b'], case['abandon_first']])
+    if kind != 'ok':
+        report(ctx, case, 'two_blockers:%s' % ('step_budget' if kind == 'steps' else 'exception:' + type(val).__name__), {'detail': repr(val)})
+        return
+    for name, f, d in (('first', fa, da), ('second', fb, db)):
+        why = ref.classify_blocked(f.getvalue(), d)
+        if why:
+            report(ctx, case, 'two_blockers:%s_file:%s' % (name, why), {'file_len': len(f.getvalue()), 'data_len': len(d)})
+            return
+
+
 def judge(ctx, case):
+    if case['kind'] == 'two_blockers':
+        return judge_two_blockers(ctx, case)
     if case['kind'] == 'history':
         writes, fin = case['writes'], case['fin']
-        src = _FILLY if case.get('content') == 'filly' else _CODED
+        src = _SRC[case.get('content') or 'coded']
         ctx.seen('content classes', case.get('content', 'coded'))
         if max(writes or [0]) > 65536:
             ctx.count('histories with a single write above 64 KiB')
@@ -288,6 +343,10 @@ def require(m):
         reasons.append('no single write above 64 KiB')
     if 'filly' not in set(m['classes'].get('content classes', ())):
         reasons.append('content with fill-byte stretches never used')
+    if 'looks_blocked' not in set(m['classes'].get('content classes', ())):
+        reasons.append('no data that looks like an already blocked file')
+    if not m['counters'].get('pairs of blockers written with interleaved writes') and not m['violations']:
+        reasons.append('two blockers were never written with interleaved writes')
     if not m['counters'].get('block_1014 calls'):
         reasons.append('one-shot blocker never called')
     return reasons
